@@ -739,6 +739,9 @@ def pcoins(s):
     return {it.rsplit("=", 1)[0]: int(it.rsplit("=", 1)[1]) for it in plist(s)}
 
 
+C17_CAP = 25 * 10 ** 16   # 0.25 as a raw LegacyDec
+
+
 def oracle_c18(run, ops, impl):
     out = []
     P = None
@@ -948,9 +951,9 @@ def oracle_msgtree(run, ops, impl, pid):
             for it in plist(sec(f, "VAL")):
                 o, r = it.split(":"); new[o] = int(r)
             for o, r in new.items():
-                if r > 25 and vals.get(o, 0) <= 25:
+                if r > C17_CAP and vals.get(o, 0) <= C17_CAP:
                     paths = sorted({">".join(p) or "top" for p, l in leaves
-                                    if l.startswith("comm:%s:" % o) and int(l.split(":")[2]) > 25})
+                                    if l.startswith("comm:%s:" % o) and int(l.split(":")[2]) > C17_CAP})
                     via = "wasm" if any("wasm" in x for x in paths) else "+".join(paths)
                     out.append(V("C17:commission-above-cap:via=%s" % via, {"line": i + 1, "op": op, "obs": ob, "operator": o, "rate": r}))
             vals = new
@@ -988,7 +991,7 @@ PROPS["C02"] = {
 
 PROPS["C17"] = {
     "modules": ["NibiruProofs.C17"],
-    "runs": [{"model": "msgtree", "n_quick": 120, "n_thorough": 1500, "nontrivial": r"comm:\d+:(2[6-9]|[3-9]\d|100)"}],
+    "runs": [{"model": "msgtree", "n_quick": 120, "n_thorough": 1500, "nontrivial": r"comm:\d+:(25(?!0{16})\d{16}|2[6-9]\d{16}|[3-9]\d{17}|1\d{18})"}],
     "oracle": oracle_c17,
     "rule": MSGTREE_RULE + "; non-trivial = the tx contains a staking message with a commission above 25%",
     "assumptions": ["the cap theorem covers trees without wasm-dispatched staking messages; the wasm path is a proved counterexample "
